@@ -125,6 +125,13 @@ pub fn run(ctx: &mut Ctx) {
         }
     }
 
+    // 2b. one payload beyond 2^24 bytes (thorough only)
+    if ctx.shard == 0 && ctx.tier == crate::monitor::Tier::Thorough && !ctx.miri {
+        ctx.next_case();
+        ctx.count("huge_payload_docs");
+        check_one(ctx, &gen::huge_payload_doc());
+    }
+
     // 3. random documents
     let n = if ctx.miri { ctx.miri_cases(60) } else { ctx.budget(2_000_000, 40_000_000) };
     for i in 0..n {
